@@ -357,6 +357,22 @@ def o15_pipeline(check: Check, repo: Repo) -> None:
         check.oblige("O15", construct, cat, False, sample=True, finding=Finding("O15", construct, cat, f"{cat}: e.g. {msgs[0]} ({len(msgs)} of {n} model grammars)", {"witness": msgs[0]}))
 
 
+def o16_skip_pass(check: Check, repo: Repo) -> None:
+    """The skip pass on a family of loop shapes (sa/optsem.py): exactly the loop's terminators, or no rewrite."""
+    from ..optsem import check_skip_pass
+
+    construct = "src/pest/grammar/optimizers/skippers.py::skip"
+    n, bad = check_skip_pass(repo, construct)
+    check.count("skip_pass_model_loops", n)
+    check.oblige("O16", construct, f"on all {n} model loops the skip pass collects exactly the loop's plain literals or leaves the loop alone", True, sample=True)
+    cats: dict[str, list[str]] = {}
+    for cat, msg in bad:
+        cats.setdefault(cat, []).append(msg)
+    for cat, msgs in sorted(cats.items()):
+        check.oblige("O16", construct, cat, False, sample=True, finding=Finding("O16", construct, cat, f"{cat}: e.g. {msgs[0]} ({len(msgs)} of {n} model loops)", {"witness": msgs[0]}))
+    check.floor("skip_pass_model_loops", 40)
+
+
 def o13_fold_flags(check: Check, repo: Repo) -> None:
     """A squashed choice must fold case exactly like the `^"..."` literal it replaces: CIString compiles with re.I
     under the regex module's default VERSION0 (simple folding); a global VERSION1 / FULLCASE on the squashed
@@ -393,7 +409,7 @@ def o13_fold_flags(check: Check, repo: Repo) -> None:
 
 def run(tier: str) -> Check:
     check = Check("C02", tier, EXPLANATION)
-    check.rules = ["O1", "O2", "O3", "O4", "O5", "O6(TERM)", "O7", "O8", "O9", "O10", "O11", "O12", "O13", "O14", "O15"]
+    check.rules = ["O1", "O2", "O3", "O4", "O5", "O6(TERM)", "O7", "O8", "O9", "O10", "O11", "O12", "O13", "O14", "O15", "O16"]
     check.assumptions = [
         "NOT decided: equivalence of the regex built by build_optimized_pattern with the choice it replaces beyond O2 and C12's fragment rules, and of SkipUntil's search with the loop it replaces in atomic context — equalities of languages of run-time constructed objects",
         "the unrolled forms are those of the specification table shared with C03/C04",
@@ -405,6 +421,7 @@ def run(tier: str) -> Check:
     o13_fold_flags(check, repo)
     o14_inline_semantics(check, repo)
     o15_pipeline(check, repo)
+    o16_skip_pass(check, repo)
     o1_unchecked(check, repo)
     o2_order(check, repo, tier)
     o3_trivia(check, repo)
